@@ -3,7 +3,7 @@
 From Coq Require Import Relations.
 From Equations Require Import Equations.
 From Sdns Require Import Common.Base Gen.C12 C12.Model C12.Skeleton
-  C12.Proofs_ledger C12.Proofs_guard C12.Proofs_run C12.Proofs_skeleton C12.Proofs_reply C12.Proofs_query.
+  C12.Proofs_ledger C12.Proofs_sig C12.Proofs_guard C12.Proofs_run C12.Proofs_skeleton C12.Proofs_reply C12.Proofs_query.
 Open Scope N_scope.
 
 (* ---- translator ties: the kind sets the two dimension switches range over, the DNSSEC/network
@@ -116,6 +116,17 @@ Theorem chase_level_bounded : forall d len la lt,
   fst (chase_model d len la lt) <= cname_loop_depth /\ (max_cname_chase_depth <= d -> fst (chase_model d len la lt) = 0).
 Proof. exact chase_model_bound. Qed.
 Print Assumptions chase_level_bounded.
+
+(* ---- DNSSEC signature work: whatever the response looks like (any number of RRsets, RRSIGs per
+   RRset, colliding DNSKEYs per key tag, genuine or not), in enforce mode the verification loop performs
+   at most MaxSignatureChecks public-key operations, and at most
+   sum over RRsets of min(MaxRRsetSignatureChecks, sum over RRSIGs of min(MaxDNSKEYCandidates, candidates)) *)
+Theorem rrsig_work_bounded : forall K Rl St sets,
+  let pol := mk_T_RecursionWorkPolicy mode_enforce 128 32 K Rl St 32 32 32 in
+  let l := fst (verify_rrsets (new_ledger pol) sets) in
+  l_sig l <= St /\ l_sig l <= sig_shape_bound K Rl sets.
+Proof. exact rrsig_work_bounded_lemma. Qed.
+Print Assumptions rrsig_work_bounded.
 
 (* ---- (iii) the skeleton.
    exchange_preceded_by_debit: ANY program in which every Exchange is the acceptance branch of an
